@@ -69,8 +69,8 @@ RULES: Dict[str, Dict[str, Any]] = {
     PE + "avg_pool.py": dict(spec=Spec("trailing", {}), dom="none", param="-", operands="x+params"),
     PE + "adaptive_pool.py": dict(spec=Spec("trailing", {}), dom="none", param="-", operands="x+params", extra={"target_shape": (2,)}),
     PE + "rotary_positional_embedding.py": dict(spec=Spec("trailing", {}), dom="none", param="-", operands="x+params"),
-    "jax2onnx/plugins/dm_pix/depth_to_space.py": dict(spec=Spec("trailing", {}), dom="none", param="-", operands="x+params"),
-    "jax2onnx/plugins/dm_pix/space_to_depth.py": dict(spec=Spec("trailing", {}), dom="none", param="-", operands="x+params"),
+    "jax2onnx/plugins/dm_pix/depth_to_space.py": dict(spec=Spec("trailing", {}, const={"_opaque_callee": ("_depth_to_space_impl",)}), dom="none", param="-", operands="x+params", extra={"block_size": 2}),
+    "jax2onnx/plugins/dm_pix/space_to_depth.py": dict(spec=Spec("trailing", {}, const={"_opaque_callee": ("_space_to_depth_impl",)}), dom="none", param="-", operands="x+params", extra={"block_size": 2}),
     PJ + "numpy/matmul.py": dict(spec=Spec("matmul", {}), dom="none", param="-", operands="contract"),
     PJ + "numpy/dot.py": dict(spec=Spec("dot", {}), dom="none", param="-", operands="contract"),
     PJ + "numpy/trilu.py": dict(spec=Spec("trailing", {}, const={"_k": 2}), dom="none", param="-", operands="x+params"),
@@ -309,13 +309,19 @@ def run_batch_rules(res: Results, idx: Index, tier: str) -> None:
             res.unresolved("R-C10e", f"{rel}:1", f"{rel}::<no-rule>", "no batching rule registered by name in this module any more", "<module>")
             continue
         status, bsite, none_bound = bind_domain(idx, rel, fns, [k for k, v in entry["spec"].prim.items() if v in ("axis", "axes", "axis1", "axis2")])
+        owners_by_rule: Dict[str, Set[str]] = {}
+        for node in ast.walk(idx.by_rel[rel].tree):
+            if isinstance(node, ast.Assign) and len(node.targets) == 1 and isinstance(node.targets[0], ast.Subscript) and "primitive_batchers" in (dotted(node.targets[0].value) or "") and isinstance(node.value, ast.Name):
+                o = _prim_owner_name(node.targets[0].slice)
+                if o:
+                    owners_by_rule.setdefault(node.value.id, set()).add(o)
         for fi in fns:
             n_rules += 1
             buckets: Dict[Tuple[str, str], Dict[str, List[str]]] = {}
             for labels, bds, p, acls in _cases(entry, fi):
                 mapped = [b for b in bds if b is not None]
                 bcls = "front" if all(b == 0 for b in mapped) else "inner"
-                st, de = run_rule(idx, fi, entry["spec"], labels, bds, p)
+                st, de = run_rule(idx, fi, entry["spec"], labels, bds, p, owners=owners_by_rule.get(fi.name))
                 n_cases += 1
                 if st == "VIOLATION" and entry.get("result_unmapped_ok") and "reports it as not mapped" in de:
                     st = "OK"
